@@ -35,7 +35,8 @@ const gbWords = "putative  membrane transport protein involved in the uptake of 
 
 // gbShape builds feature number idx of the given shape for a sequence of length L.
 func gbShape(shape, idx, L int) gbFeat {
-	key := []string{"gene", "CDS", "misc_feature", "promoter", "rep_origin"}[idx%5]
+	// INSDC feature keys are not all plain words: 5'UTR, 3'UTR, -10_signal, -35_signal, D-loop
+	key := []string{"gene", "5'UTR", "misc_feature", "-10_signal", "rep_origin", "CDS", "3'UTR", "D-loop"}[(idx+shape)%8]
 	loc := gbSpan(L, idx+2)
 	gene := gbQual{key: "gene", val: fmt.Sprintf("abc%d", idx)}
 	switch shape {
